@@ -146,9 +146,40 @@ fn run27(ctx: &mut Ctx) {
         ctx.count(if dbg { "episodes.debug-frames-on" } else { "episodes.debug-frames-off" });
         if ctx.want_sample() && structured && maxdepth >= 2 { ctx.sample(desc.clone().set("max_depth", maxdepth)); }
     });
+    deep_calls(ctx);
+}
+/// Deep call chains: `JSR` to itself never returns, so after n steps n calls are outstanding; the depth (and with debug frames
+/// the number of recorded frames) must be n also past 65 535, and unwinding with RET must count back down.
+fn deep_calls(ctx: &mut Ctx) {
+    use lc3_ensemble::sim::mem::MachineInitStrategy;
+    use lc3_ensemble::sim::{SimFlags, Simulator};
+    ctx.cases(1, 4, |ctx, _rng, idx| {
+        let dbg = idx & 1 == 1; let real = idx & 2 != 0;
+        let mut sim = Simulator::new(SimFlags { debug_frames: dbg, use_real_traps: real, machine_init: MachineInitStrategy::Known { value: 0 }, ..Default::default() });
+        sim.mem[0x3000] = Word::new_init(0x4FFF); // JSR #-1: calls itself
+        sim.pc = 0x3000;
+        let case = || Json::obj().set("debug_frames", dbg).set("real_traps", real).set("program", "x3000: JSR #-1 (calls itself), later replaced by RET");
+        let total = 70_000u64;
+        for n in 1..=total {
+            let Some(r) = ctx.no_panic("step_in", case, || sim.step_in()) else { return };
+            if r.is_err() { ctx.violation("deep-calls:step-fails", format!("step {n} failed"), case()); return; }
+            if n % 4096 == 0 || (65_530..=65_540).contains(&n) || n == total {
+                ctx.eval();
+                let d = sim.frame_stack.len();
+                let f = sim.frame_stack.frames().map(|f| f.len() as u64);
+                if d != n || (dbg && f != Some(n)) || (!dbg && f.is_some()) { ctx.violation("deep-calls:depth", format!("after {n} unreturned calls: len() = {d}, frames() has {f:?} entries"), case()); return; }
+            }
+        }
+        // unwind a little: RET at x3000 with R7 = x3000 returns to itself
+        sim.mem[0x3000] = Word::new_init(0xC1C0); sim.reg_file[reg(7)].set(0x3000);
+        for n in 1..=10u64 { let _ = sim.step_in(); if sim.frame_stack.len() != total - n { ctx.violation("deep-calls:depth-after-returns", format!("after {n} returns from depth {total}: len() = {}", sim.frame_stack.len()), case()); return; } }
+        ctx.count("deep-calls.checked");
+        ctx.nontrivial(crate::rng::hash64(&[idx, 27, 65_536]));
+    });
 }
 fn guard27(m: &Merged, _t: Tier) -> Vec<String> {
     let mut out = vec![];
+    need(m, &mut out, "deep-calls.checked", 4);
     for k in ["pushed.interrupt", "pushed.trap", "pushed.subroutine", "pushed.exception", "pushed.exception.debug-frames-on", "popped.ret-on-handler-frame", "popped.rti", "popped.ret", "popped.ret-at-depth-0", "signature.calling-convention", "signature.pass-by-register", "episodes.nested", "episodes.debug-frames-on", "episodes.debug-frames-off"] { need(m, &mut out, k, 10); }
     out
 }
